@@ -6,7 +6,10 @@ package main
 // Output: per subscriber the indexes of the messages it was sent, in order ("0.2;1;-").
 
 import (
+	"bytes"
 	"context"
+	"net/http"
+	"regexp"
 	"fmt"
 	"math/rand"
 	"strings"
@@ -99,6 +102,97 @@ func runSPUB(args []string) string {
 	return strings.Join(out, ";")
 }
 
+// SPUBH <subs> <pubs>: the same, the subscribers being sessions of Server.ServeHTTP whose topics come from OnSession
+// (a subscriber "-" = OnSession approves without naming topics: the default topic); what a session received is read
+// off its response body. One session's topics must not change another's: they are per subscription.
+type spubRes struct {
+	mu   sync.Mutex
+	hdr  http.Header
+	body bytes.Buffer
+}
+
+func (r *spubRes) Header() http.Header { return r.hdr }
+func (r *spubRes) WriteHeader(int)     {}
+func (r *spubRes) Write(p []byte) (int, error) {
+	r.mu.Lock()
+	defer r.mu.Unlock()
+	return r.body.Write(p)
+}
+func (r *spubRes) Flush() {}
+
+var spubData = regexp.MustCompile(`(?m)^data: m(\d+)$`)
+
+func runSPUBH(args []string) string {
+	if len(args) != 2 {
+		return "bad-args"
+	}
+	subs := strings.Split(args[0], ";")
+	pubs := strings.Split(args[1], ";")
+	joe := &sse.Joe{}
+	server := &sse.Server{Provider: joe, OnSession: func(_ http.ResponseWriter, r *http.Request) ([]string, bool) {
+		h := r.Header.Get("X-Verif-Topics")
+		if h == "" {
+			return nil, true
+		}
+		return parseTopics(h), true
+	}}
+	registered := make(chan struct{}, len(subs))
+	sse.VerifHook = func(point string, a, b any) {
+		if point == "loop.registered" {
+			registered <- struct{}{}
+		}
+	}
+	defer func() { sse.VerifHook = nil }()
+	ctx, cancel := context.WithCancel(context.Background())
+	defer cancel()
+	rs := make([]*spubRes, len(subs))
+	var wg sync.WaitGroup
+	for i, s := range subs {
+		rs[i] = &spubRes{hdr: http.Header{}}
+		req, _ := http.NewRequestWithContext(ctx, http.MethodGet, "http://verif.invalid/", http.NoBody)
+		if s != "-" {
+			req.Header.Set("X-Verif-Topics", s)
+		}
+		wg.Add(1)
+		go func(i int) {
+			defer wg.Done()
+			server.ServeHTTP(rs[i], req)
+		}(i)
+		// one after the other: the order of the sessions is part of the case
+		select {
+		case <-registered:
+		case <-time.After(10 * time.Second):
+			return "BLOCKED registration"
+		}
+	}
+	for j, p := range pubs {
+		m := &sse.Message{}
+		m.AppendData(fmt.Sprint("m", j))
+		if err := server.Publish(m, parseTopics(p)...); err != nil {
+			return "PUBERR " + err.Error()
+		}
+	}
+	sctx, scancel := context.WithTimeout(context.Background(), 10*time.Second)
+	defer scancel()
+	if err := server.Shutdown(sctx); err != nil {
+		return "SHUTDOWN " + err.Error()
+	}
+	wg.Wait()
+	out := make([]string, len(rs))
+	for i, r := range rs {
+		var got []string
+		for _, m := range spubData.FindAllStringSubmatch(r.body.String(), -1) {
+			got = append(got, m[1])
+		}
+		if len(got) == 0 {
+			out[i] = "-"
+		} else {
+			out[i] = strings.Join(got, ".")
+		}
+	}
+	return strings.Join(out, ";")
+}
+
 func genSPUB(rng *rand.Rand, n int, thorough bool, emit func(string)) {
 	names := []string{"_", "_", "61", "62", "6e657773", "612c62", "20"}
 	list := func(allowNone bool) string {
@@ -122,10 +216,26 @@ func genSPUB(rng *rand.Rand, n int, thorough bool, emit func(string)) {
 			pubs = append(pubs, list(true))
 		}
 		emit("SPUB " + strings.Join(subs, ";") + " " + strings.Join(pubs, ";"))
+		if i%2 == 1 {
+			// through ServeHTTP and OnSession: some sessions on the default topic, most topic lists of one name
+			var hs []string
+			for j := 0; j < 1+rng.Intn(4); j++ {
+				switch rng.Intn(3) {
+				case 0:
+					hs = append(hs, "-")
+				case 1:
+					hs = append(hs, names[2+rng.Intn(len(names)-2)])
+				default:
+					hs = append(hs, list(false))
+				}
+			}
+			emit("SPUBH " + strings.Join(hs, ";") + " " + strings.Join(pubs, ";"))
+		}
 	}
 }
 
 func init() {
 	runners["SPUB"] = runSPUB
+	runners["SPUBH"] = runSPUBH
 	generators["SPUB"] = genSPUB
 }
